@@ -1,5 +1,6 @@
 import UwgVerif.Drv.Proto
 import UwgVerif.Model.Diffusion
+import UwgVerif.Model.RsmCoef
 open Uwg Uwg.Proto
 
 def fmtErr : PyErr → String
@@ -14,6 +15,43 @@ def mkRows : List ℚ → List ℚ → List ℚ → List ℚ → List (Row ℚ)
   | a :: as, b :: bs, c :: cs, y :: ys => ⟨a, b, c, y⟩ :: mkRows as bs cs ys
   | _, _, _, _ => []
 
+/-! ### `RSMDef.dissipation_bougeault`, `length_bougeault`, `diffusion_coefficient`, `vdm` -/
+
+def fmtRErr : Rsm.RErr → String
+  | .index => "err index"
+  | .zerodiv => "err zerodiv"
+  | .value => "err value"
+
+def fmtR (f : α → String) : Rsm.R α → String
+  | .ok a => "ok " ++ f a
+  | .error e => fmtRErr e
+
+def param? (a : Args) : Option (Rsm.Param ℚ) :=
+  match a.rat? "r", a.rat? "cp", a.rat? "g", a.rat? "vk", a.rat? "daybl" with
+  | some r, some cp, some g, some vk, some d => some ⟨r, cp, g, vk, d⟩
+  | _, _, _, _, _ => none
+
+def state? (a : Args) : Option (Rsm.VdmState ℚ) :=
+  match a.rats? "temp", a.rats? "pres", a.rats? "treal", a.rats? "dc", a.rats? "ds",
+        a.rats? "wind" with
+  | some t, some p, some tr, some dc, some ds, some w => some ⟨t, p, tr, dc, ds, w⟩
+  | _, _, _, _, _, _ => none
+
+def forc? (a : Args) : Option (Rsm.Forc ℚ) :=
+  match a.rat? "ftemp", a.rat? "fpres", a.rat? "fwind" with
+  | some t, some p, some w => some ⟨t, p, w⟩
+  | _, _, _ => none
+
+def fmtCoef (o : Rsm.CoefOut ℚ) : String :=
+  s!"kt={fmtRatList o.kt} ustar={fmtRat o.ustar} te={fmtRatList o.te} " ++
+  s!"dlu={fmtRatList o.dlu} dld={fmtRatList o.dld}"
+
+def fmtVdm (o : Rsm.VdmOut ℚ) : String :=
+  s!"temp={fmtRatList o.st.tempProf} pres={fmtRatList o.st.presProf} " ++
+  s!"treal={fmtRatList o.st.tempRealProf} dc={fmtRatList o.st.densityProfC} " ++
+  s!"ds={fmtRatList o.st.densityProfS} wind={fmtRatList o.st.windProf} " ++
+  s!"ubl={fmtRat o.ublPres} dlu={fmtRatList o.dlu} dld={fmtRatList o.dld}"
+
 def stepC16 (line : String) : String :=
   let (op, a) := parseLine line
   match op with
@@ -27,6 +65,39 @@ def stepC16 (line : String) : String :=
     match a.rats? "a", a.rats? "b", a.rats? "c", a.rats? "y" with
     | some la, some lb, some lc, some ly => fmtRes (solveChecked (mkRows la lb lc ly))
     | _, _, _, _ => "bad-args"
+  | "dissip" =>
+    match a.rat? "g", a.nat? "nz", a.rats? "z", a.rats? "dz", a.rats? "te", a.rats? "pt" with
+    | some g, some nz, some z, some dz, some te, some pt =>
+      fmtR (fun (r : List ℚ × List ℚ) => s!"dlu={fmtRatList r.1} dld={fmtRatList r.2}")
+        (Rsm.dissipation stubQ g nz z dz te pt)
+    | _, _, _, _, _, _ => "bad-args"
+  | "lengths" =>
+    match a.nat? "nz", a.rats? "dld", a.rats? "dlu", a.rats? "z" with
+    | some nz, some dld, some dlu, some z =>
+      fmtR (fun (r : List ℚ × List ℚ × List ℚ) =>
+          s!"dld={fmtRatList r.1} dls={fmtRatList r.2.1} dlk={fmtRatList r.2.2}")
+        (Rsm.lengthBougeault stubQ nz dld dlu z)
+    | _, _, _, _ => "bad-args"
+  | "coef" =>
+    match param? a, a.rat? "rho", a.rats? "z", a.rats? "dz", a.rat? "z0", a.rat? "disp",
+          a.rat? "trur", a.rat? "heat", a.nat? "nz", a.rat? "uref", a.rats? "th" with
+    | some P, some rho, some z, some dz, some z0, some disp, some trur, some heat, some nz,
+      some uref, some th =>
+      fmtR fmtCoef (Rsm.diffusionCoefficient stubQ P rho z dz z0 disp trur heat nz uref th)
+    | _, _, _, _, _, _, _, _, _, _, _ => "bad-args"
+  | "vdm" =>
+    match param? a, state? a, forc? a, a.nat? "nzref", a.nat? "nzfor", a.rat? "dt", a.rats? "z",
+          a.rats? "dz", a.rat? "z0r", a.rat? "disp", a.rat? "sens" with
+    | some P, some st, some F, some nzref, some nzfor, some dt, some z, some dz, some z0r,
+      some disp, some sens =>
+      fmtR fmtVdm (Rsm.vdm stubQ P nzref nzfor dt z dz z0r disp F sens st)
+    | _, _, _, _, _, _, _, _, _, _, _ => "bad-args"
+  | "grid" =>
+    match a.rats? "zm" with
+    | some zm =>
+      let g := Rsm.mesoGrid zm
+      s!"ok z={fmtRatList g.1} dz={fmtRatList g.2}"
+    | none => "bad-args"
   | _ => "bad-op"
 
 def main : IO Unit := loop stepC16
